@@ -299,9 +299,12 @@ fn obs(input: &str, out: &str, hyeong: &str, levels: Vec<u8>, clevels: Vec<u8>, 
         };
         let file = format!("{}/p.hyeong", dir);
         std::fs::write(&file, text.as_bytes()).unwrap();
-        let stdin = input_bytes(case);
         let to = Duration::from_millis(timeout_ms);
-        let mut runs = Vec::new();
+        // one case may carry several stdin texts ("inputs"): compile once, run for each
+        let inputs: Vec<(Value, Vec<u8>)> = match case.get("inputs") {
+            Some(Value::Array(a)) => a.iter().map(|i| (i.clone(), cps_text(i).into_bytes())).collect(),
+            _ => vec![(case["input"].clone(), input_bytes(case))],
+        };
         // the text must denote the intended commands, otherwise the case belongs to the parser (C04)
         let parsed: Vec<Value> = hyeong::core::parse::parse(text.clone())
             .iter()
@@ -312,30 +315,22 @@ fn obs(input: &str, out: &str, hyeong: &str, levels: Vec<u8>, clevels: Vec<u8>, 
             .collect();
         let intended: Vec<Value> = case["prog"].as_array().map(|a| a.iter().map(|c| json!({"k": c["k"], "h": c["h"], "d": c["d"]})).collect()).unwrap_or_default();
         let text_ok = case.get("text").map(|t| t.is_string()).unwrap_or(false) || parsed == intended;
-        for l in &levels {
-            let mut cmd = Command::new(&hyeong);
-            cmd.args(["run", &format!("-O{}", l), "--color", "never", &file]);
-            let (o, e, code, timed_out) = run_proc(&mut cmd, &stdin, to, 1 << 20);
-            let (body, started) = after_running(&o);
-            runs.push(json!({"how": format!("run-O{}", l), "stdout": lossy_cps(&body), "stderr": lossy_cps(&e), "code": code,
-                             "timeout": timed_out, "started": started,
-                             "panicked": String::from_utf8_lossy(&e).contains("panicked at")}));
-        }
+        // compile stage (per level), independent of the input
+        let mut compiled: Vec<(u8, Result<String, Value>)> = Vec::new();
         if let Some(rlib) = &rlib {
             let pf = format!("{}/prog.json", dir);
             std::fs::write(&pf, case["prog"].to_string()).unwrap();
             for l in &clevels {
+                let how = format!("compiled-O{}", l);
                 let mut cmd = Command::new(&exe);
                 cmd.args(["emit", "--prog", &pf, "--level", &l.to_string()]);
-                // optimisation must not touch the program's stdin: give it the same input and see below
                 let (src, e, code, timed_out) = run_proc(&mut cmd, b"", Duration::from_secs(20), 64 << 20);
-                let how = format!("compiled-O{}", l);
                 if timed_out || code != 0 {
-                    runs.push(json!({"how": how, "stage": "emit", "code": code, "timeout": timed_out, "stderr": lossy_cps(&e)}));
+                    compiled.push((*l, Err(json!({"how": how, "stage": "emit", "code": code, "timeout": timed_out, "stderr": lossy_cps(&e), "panicked": false}))));
                     continue;
                 }
                 if src.starts_with(b"OPTIMIZE-ERROR") {
-                    runs.push(json!({"how": how, "stage": "optimize-error", "msg": String::from_utf8_lossy(&src)}));
+                    compiled.push((*l, Err(json!({"how": how, "stage": "optimize-error", "msg": String::from_utf8_lossy(&src), "panicked": false}))));
                     continue;
                 }
                 let gen = format!("{}/gen{}.rs", dir, l);
@@ -345,18 +340,41 @@ fn obs(input: &str, out: &str, hyeong: &str, levels: Vec<u8>, clevels: Vec<u8>, 
                 rc.args(["--edition", "2018", "-C", "opt-level=0", "-C", "debuginfo=0", "-o", &bin, "--extern", &format!("hyeong={}", rlib), &gen]);
                 let (_o, e, code, _t) = run_proc(&mut rc, b"", Duration::from_secs(120), 1 << 20);
                 if code != 0 {
-                    runs.push(json!({"how": how, "stage": "rustc", "code": code, "stderr": String::from_utf8_lossy(&e).chars().take(600).collect::<String>()}));
+                    compiled.push((*l, Err(json!({"how": how, "stage": "rustc", "code": code, "panicked": false,
+                                                  "stderr": String::from_utf8_lossy(&e).chars().take(600).collect::<String>()}))));
                     continue;
                 }
-                let mut cmd = Command::new(&bin);
-                let (o, e, code, timed_out) = run_proc(&mut cmd, &stdin, to, 1 << 20);
-                runs.push(json!({"how": how, "stage": "run", "stdout": lossy_cps(&o), "stderr": lossy_cps(&e), "code": code, "timeout": timed_out,
-                                 "panicked": String::from_utf8_lossy(&e).contains("panicked at")}));
+                compiled.push((*l, Ok(bin)));
             }
         }
+        let mut events = Vec::new();
+        for (input_json, stdin) in &inputs {
+            let mut runs = Vec::new();
+            for l in &levels {
+                let mut cmd = Command::new(&hyeong);
+                cmd.args(["run", &format!("-O{}", l), "--color", "never", &file]);
+                let (o, e, code, timed_out) = run_proc(&mut cmd, stdin, to, 4 << 20);
+                let (body, started) = after_running(&o);
+                runs.push(json!({"how": format!("run-O{}", l), "stdout": lossy_cps(&body), "stderr": lossy_cps(&e), "code": code,
+                                 "timeout": timed_out, "started": started,
+                                 "panicked": String::from_utf8_lossy(&e).contains("panicked at")}));
+            }
+            for (l, c) in &compiled {
+                match c {
+                    Err(v) => runs.push(v.clone()),
+                    Ok(bin) => {
+                        let mut cmd = Command::new(bin);
+                        let (o, e, code, timed_out) = run_proc(&mut cmd, stdin, to, 4 << 20);
+                        runs.push(json!({"how": format!("compiled-O{}", l), "stage": "run", "stdout": lossy_cps(&o), "stderr": lossy_cps(&e), "code": code,
+                                         "timeout": timed_out, "panicked": String::from_utf8_lossy(&e).contains("panicked at")}));
+                    }
+                }
+            }
+            events.push(json!({"ev":"obs","prog":case["prog"],"input":input_json,"text_ok":text_ok,"runs":runs,
+                               "tag": case.get("tag").cloned().unwrap_or(json!(""))}));
+        }
         let _ = std::fs::remove_dir_all(&dir);
-        vec![json!({"ev":"obs","prog":case["prog"],"input":case["input"],"text_ok":text_ok,"runs":runs,
-                    "tag": case.get("tag").cloned().unwrap_or(json!(""))})]
+        events
     });
     let mut w = std::io::BufWriter::new(std::fs::File::create(out).unwrap());
     for evs in res {
@@ -385,7 +403,7 @@ fn emit_source(prog_file: &str, level: u8) {
 }
 
 /// C10: run optimize() only.  The parent watches stdin / stdout / stderr / exit of this process.
-fn optonly(prog_file: &str, level: u8) {
+fn optonly(prog_file: &str, level: u8, fd: i32) {
     let cmds: Value = serde_json::from_str(&std::fs::read_to_string(prog_file).unwrap()).unwrap();
     let codes: Vec<UnOptCode> = codes_of(&cmds);
     let n = codes.len();
@@ -400,7 +418,7 @@ fn optonly(prog_file: &str, level: u8) {
         Err(m) => json!({"ev":"optend","panic":m,"n":n,"steps":steps,"ms":ms}),
     };
     use std::os::unix::io::FromRawFd;
-    let mut f = unsafe { std::fs::File::from_raw_fd(3) };
+    let mut f = unsafe { std::fs::File::from_raw_fd(fd) };
     let _ = writeln!(f, "{}", line);
 }
 
@@ -437,7 +455,11 @@ fn main() {
             )
         }
         Some("emit") => emit_source(&arg(&args, "--prog").unwrap(), arg(&args, "--level").and_then(|s| s.parse().ok()).unwrap_or(0)),
-        Some("optonly") => optonly(&arg(&args, "--prog").unwrap(), arg(&args, "--level").and_then(|s| s.parse().ok()).unwrap_or(2)),
+        Some("optonly") => optonly(
+            &arg(&args, "--prog").unwrap(),
+            arg(&args, "--level").and_then(|s| s.parse().ok()).unwrap_or(2),
+            arg(&args, "--fd").and_then(|s| s.parse().ok()).unwrap_or(3),
+        ),
         _ => {
             eprintln!("usage: hv-exec child|steps|obs|emit|optonly ...");
             std::process::exit(2);
